@@ -144,14 +144,21 @@ static void split_to_json(Prm &p, Rng &r) {
     if (r.coin(0.3) && !keep.empty()) { Op o = keep[r.next() % keep.size()]; if (o.kind == 'i') { jput(root, o.name, std::to_string(o.iv + 7)); p.json = jdump(root); } }   // a setter overrides the file value
 }
 
-static Csr<double> gen_system(Rng &r, std::string &fam, bool big) {
+static Csr<double> gen_sorted_system(Rng &r, std::string &fam, bool big) {
     int k = (int)r.range(0, 2);
     if (k == 0) { vf::GridSpec g; Csr<double> A = vf::model_problem(r, big ? 300 : 80, big ? 900 : 300, &g); fam = g.nz > 1 ? "grid7" : (g.nine ? "grid9" : "grid5"); return A; }
     if (k == 1) { fam = "convdiff"; return vf::convdiff((int)r.range(8, big ? 26 : 16), (int)r.range(8, big ? 26 : 16), r.logu(0.1, 5), r, false); }
     vf::GridSpec g; g.nx = (int)r.range(6, big ? 24 : 14); g.ny = (int)r.range(6, big ? 24 : 14); g.shift = r.uni(0.01, 0.5); g.contrast = r.logu(1, 8); fam = "grid5_shift"; return vf::grid_diffusion(g, r);
 }
+// Valid CRS input does not have to store the columns of a row in ascending order: 40% of the systems are handed over with the
+// entries of every row randomly permuted (or reversed).  All entry points -- 0-based, 1-based, C++ -- get the same arrays.
+static Csr<double> gen_system(Rng &r, std::string &fam, bool big) {
+    Csr<double> A = gen_sorted_system(r, fam, big);
+    if (r.coin(0.4)) { bool rev = r.coin(0.3); A = vf::shuffle_rows(A, r, rev); fam += rev ? "/rows-reversed" : "/rows-shuffled"; vf::obs_sum("unsorted_row_systems"); }
+    return A;
+}
 // replacement matrix for solve_mtx: same size; either perturbed values on the same pattern or another generator
-static Csr<double> replacement(const Csr<double> &A, Rng &r) { Csr<double> A2 = A; for (auto &v : A2.val) v *= (1.0 + 0.02 * r.uni()); for (size_t i = 0; i < A2.n; ++i) for (auto j = A2.ptr[i]; j < A2.ptr[i + 1]; ++j) if ((size_t)A2.col[j] == i) A2.val[j] *= 1.05; return A2; }
+static Csr<double> replacement(const Csr<double> &A, Rng &r) { Csr<double> A2 = A; for (auto &v : A2.val) v *= (1.0 + 0.02 * r.uni()); for (size_t i = 0; i < A2.n; ++i) for (auto j = A2.ptr[i]; j < A2.ptr[i + 1]; ++j) if ((size_t)A2.col[j] == i) A2.val[j] *= 1.05; if (r.coin(0.3)) A2 = vf::shuffle_rows(A2, r); return A2; }
 
 // handles are destroyed through the C API even when a later call on them throws (a leak would otherwise be the harness's)
 struct HPrecond { amgclHandle h; explicit HPrecond(amgclHandle h_) : h(h_) {} ~HPrecond() { if (h) amgcl_precond_destroy(h); } operator amgclHandle() const { return h; } HPrecond(const HPrecond&) = delete; };
@@ -340,7 +347,10 @@ static void sub_lifecycle() {
                 if (mode < 2) amgcl_precond_destroy(h); else amgcl_solver_destroy(h); ++pairs; });
             amgcl_params_destroy(prm);
         }
-        c.check(expect_throw == !e.empty(), "lifecycle:create:unexpected-outcome", expect_throw ? "an invalid component name did not raise an exception through the C API" : "valid parameters were rejected: " + e);
+        // only the invalid names are judged here; an exception of the library for a valid random parameter set (e.g. a singular coarse
+        // matrix) is compared with the C++ outcome in the precond / solver sub-checks and merely counted here -- it must not leak either
+        if (expect_throw) c.check(!e.empty(), "lifecycle:create:invalid-name-accepted", "an invalid component name did not raise an exception through the C API");
+        else { c.check(true, "lifecycle:create", ""); if (!e.empty()) { std::string m = e.substr(0, 60); for (auto &ch : m) if (ch == ',') ch = ';'; vf::obs_add("lifecycle_exceptions_on_valid_parameters", m); } }
         if (pairs) c.nontrivial();
         vf::obs_sum("create_destroy_pairs", pairs); if (expect_throw) vf::obs_sum("failing_creates", 3);
     }
